@@ -4,6 +4,25 @@
 // The real code of /repo/pkg/signer/file (and the noop signer, types.KeyAddress, types.NewSigner)
 // is executed in child processes (child.go, pool.go); this file generates the cases and judges the
 // observations with standard-library Ed25519 / SHA-256 / JSON only (ref.go).
+//
+// # Reading of the statement (what is demanded, and what is not)
+//
+//   - The key file is found by listing the signer directory after create / import (its name is the implementation's).
+//     If a genuine file is not in the JSON layout this check knows (priv_key_encrypted / nonce / pub_key / salt as
+//     base64 strings) only byte-level corruptions and truncations are applied to it and the run is inconclusive for
+//     the JSON-level list; never a violation.
+//   - "export followed by import preserves the key": the exported bytes, imported again (into a destination that is
+//     empty or already holds a file), load to the same public key, and a second export returns the same bytes. The
+//     export FORMAT is free; only if it has the raw 64-byte Ed25519 shape (seed || public key) it is also checked to be
+//     the right key and the file is searched for the clear seed.
+//   - ImportPrivateKey over an existing destination may be refused (counted; the import is then made into an empty
+//     directory). If it reports success, the destination must load to the imported key.
+//   - Legacy salt-less files are sealed by the harness from the documented derivation. The statement demands that
+//     such a file never yields a wrong signer or a panic; that it LOADS is today's behaviour and only counted
+//     (legacy-file-loads). A legacy file that loads must load to the sealed key, with the sealing passphrase only.
+//     One legacy file is sealed under 32 zero bytes (the key a wiped buffer holds).
+//   - "protects the key": the key file must not be accessible to group or others (mode & 077 == 0) after create and
+//     after import, and must not contain the clear seed.
 package c19
 
 import (
@@ -46,6 +65,11 @@ type base struct {
 	Priv  []byte // 64 bytes (nil if it could not be obtained)
 	ref   refKeyFile
 	spans []span
+	// noLayout: the genuine file is not in the JSON layout this check knows (field names / base64 values): only
+	// byte-level mutations and truncations are applied to it
+	noLayout bool
+	// rawExport: ExportPrivateKey returned the raw 64-byte Ed25519 key (seed || public key)
+	rawExport bool
 }
 
 // meta is the parent-side description of a case.
@@ -302,7 +326,7 @@ func (d *driver) judge(m *meta, o caseObs) string {
 		r.Violation(clause, fmt.Sprintf("load of %s succeeds with a different passphrase (%s); same key=%v", baseName(m), m.Desc, same), d.witness(m, st, nil))
 	case "same":
 		if d.usable(m, st, m.b.Pub, "load of "+baseName(m)) && m.b.Kind == "legacy" {
-			r.Hit("legacy-file-loads")
+			r.Count("legacy-file-loads", 1)
 		}
 	case "fail-or-same":
 		sigOK := verifies(st.Pub, m.c.Msg, st.Sig)
@@ -350,6 +374,19 @@ func hidesKey(file, priv []byte) bool {
 	return true
 }
 
+// fileMode: the key file must not be accessible to group or others ("protects the key"; the code under test writes it
+// with mode 0600, the only thing that keeps the Argon2-sealed key and the clear public key from other local users).
+func (d *driver) fileMode(m *meta, st *stepObs, what string) {
+	d.r.Count(fmt.Sprintf("key_file_mode_%o", st.Mode), 1)
+	if len(st.File) == 0 {
+		return
+	}
+	d.r.Hit("file-mode-private")
+	if st.Mode&0o077 != 0 {
+		d.r.Violation("file-hides-key", fmt.Sprintf("the %s key file has mode %#o: readable or writable by group/others", what, st.Mode), d.witness(m, st, map[string]any{"mode_octal": fmt.Sprintf("%#o", st.Mode)}))
+	}
+}
+
 // judgeChain decides a create/load/export/import/load/noop chain and returns the bases it yields.
 func (d *driver) judgeChain(m *meta, o caseObs, legacyPriv ed25519.PrivateKey) []*base {
 	r := d.r
@@ -377,6 +414,17 @@ func (d *driver) judgeChain(m *meta, o caseObs, legacyPriv ed25519.PrivateKey) [
 		if st.Panic != "" {
 			return nil
 		}
+		if !st.OK && name == "noop" && strings.HasPrefix(st.Err, "unmarshal exported key:") {
+			// the export is not the raw Ed25519 key: the comparison signer cannot be built from it (no verdict)
+			r.Count("noop_signer_not_built:export_is_not_a_raw_ed25519_key", 1)
+			return nil
+		}
+		if !st.OK && legacyPriv != nil && (name == "load" || name == "export") {
+			// a salt-less legacy file sealed by the harness: the statement demands that it never yields a wrong signer
+			// or a panic; that it still LOADS is today's behaviour, recorded not judged
+			r.Count("legacy_file_rejected:"+name, 1)
+			return nil
+		}
 		if !st.OK {
 			clause := map[string]string{"export": "export-is-the-key", "import": "export-import-preserves-key", "load2": "export-import-preserves-key", "export2": "export-import-preserves-key"}[name]
 			if clause == "" {
@@ -399,7 +447,12 @@ func (d *driver) judgeChain(m *meta, o caseObs, legacyPriv ed25519.PrivateKey) [
 		}
 		d.usable(m, cr, nil, "signer returned by create")
 		pub0, file0 = cr.Pub, cr.File
-		r.Count(fmt.Sprintf("key_file_mode_%o", cr.Mode), 1)
+		d.fileMode(m, cr, "created")
+		if cr.FileName == "" || len(cr.File) == 0 {
+			r.Inconclusive(fmt.Sprintf("chain %s: the signer directory does not hold exactly one regular file after create; key file not found", m.Desc))
+			return nil
+		}
+		r.Count("key_file_name:"+cr.FileName, 1)
 	}
 	kind := "created"
 	if legacyPriv != nil {
@@ -409,37 +462,68 @@ func (d *driver) judgeChain(m *meta, o caseObs, legacyPriv ed25519.PrivateKey) [
 	out = append(out, b0)
 	m.b = b0
 	if ld := need("load"); ld != nil {
-		r.Hit("correct-passphrase-loads-same-key")
-		if d.usable(m, ld, pub0, "load after "+kind) && kind == "legacy" {
-			r.Hit("legacy-file-loads")
+		if kind == "legacy" {
+			// loads: then it must be the key that was sealed (judged), the loading itself is recorded
+			r.Count("legacy-file-loads", 1)
+			d.usable(m, ld, pub0, "load after "+kind)
+		} else {
+			r.Hit("correct-passphrase-loads-same-key")
+			d.usable(m, ld, pub0, "load after "+kind)
 		}
+	} else if kind == "legacy" {
+		return nil // rejected (or panicked: reported above): no base, nothing to mutate
 	}
 	ex := need("export")
 	if ex == nil {
 		return out
 	}
-	r.Hit("export-is-the-key")
-	good := len(ex.Priv) == 64 && bytes.Equal(ex.Priv[32:], pub0) &&
-		bytes.Equal(ed25519.NewKeyFromSeed(ex.Priv[:32]).Public().(ed25519.PublicKey), pub0)
-	if legacyPriv != nil {
-		good = good && bytes.Equal(ex.Priv, legacyPriv)
-	}
-	if !good {
-		r.Violation("export-is-the-key", fmt.Sprintf("chain %s: exported private key (%d bytes) is not the private key of the saved public key %x", m.Desc, len(ex.Priv), pub0), d.witness(m, ex, nil))
+	// The export format is the implementation's business (raw key, seed, marshalled key, ...): what is demanded is
+	// that the exported bytes, imported again, load to the same public key (below), and that a second export gives
+	// the same bytes. Only if the export HAS the raw 64-byte Ed25519 shape it is also checked to be the right key.
+	if len(ex.Priv) == 0 {
+		r.Violation("export-is-the-key", fmt.Sprintf("chain %s: ExportPrivateKey returned no error and no key", m.Desc), d.witness(m, ex, nil))
 		return out
 	}
+	raw := len(ex.Priv) == 64 && bytes.Equal(ex.Priv[32:], pub0)
+	b0.rawExport = raw
+	if raw {
+		r.Count("export_format:raw-ed25519-64-bytes", 1)
+		r.Hit("export-is-the-key")
+		good := bytes.Equal(ed25519.NewKeyFromSeed(ex.Priv[:32]).Public().(ed25519.PublicKey), pub0)
+		if legacyPriv != nil {
+			good = good && bytes.Equal(ex.Priv, legacyPriv)
+		}
+		if !good {
+			r.Violation("export-is-the-key", fmt.Sprintf("chain %s: the exported key has the raw Ed25519 shape (seed || public key %x) but the seed is not the seed of that public key", m.Desc, pub0), d.witness(m, ex, nil))
+			return out
+		}
+	} else {
+		r.Count(fmt.Sprintf("export_format:other-%d-bytes", len(ex.Priv)), 1)
+	}
 	b0.Priv = ex.Priv
-	r.Hit("file-hides-key")
-	if !hidesKey(file0, ex.Priv) {
-		r.Violation("file-hides-key", "the key file contains the private key seed in clear", d.witness(m, ex, nil))
+	hides := func(file []byte, st *stepObs, what string) {
+		if !raw {
+			r.Count("file-hides-key:not_evaluated_export_not_raw", 1)
+			return
+		}
+		r.Hit("file-hides-key")
+		if !hidesKey(file, ex.Priv) {
+			r.Violation("file-hides-key", "the "+what+" contains the private key seed in clear", d.witness(m, st, nil))
+		}
+	}
+	hides(file0, ex, "key file")
+	if ov := steps["import-over-existing"]; ov != nil && !ov.OK && ov.Panic == "" {
+		// ImportPrivateKey refused to replace what was at the destination: legitimate; the import below went into an
+		// empty directory
+		r.Count("import_over_existing_destination_refused", 1)
 	}
 	if im := need("import"); im != nil {
-		b1 := &base{Name: "imported/" + m.qClass, Kind: "imported", Class: m.qClass, Core: coreClass[m.qClass], File: im.File, Pass: m.c.Pas2, Pub: pub0, Priv: ex.Priv}
-		r.Hit("file-hides-key")
-		if !hidesKey(im.File, ex.Priv) {
-			r.Violation("file-hides-key", "the imported key file contains the private key seed in clear", d.witness(m, im, nil))
+		if im.OverExisting {
+			r.Hit("import-over-existing-file")
 		}
-		r.Count(fmt.Sprintf("key_file_mode_%o", im.Mode), 1)
+		b1 := &base{Name: "imported/" + m.qClass, Kind: "imported", Class: m.qClass, Core: coreClass[m.qClass], File: im.File, Pass: m.c.Pas2, Pub: pub0, Priv: ex.Priv, rawExport: raw}
+		hides(im.File, im, "imported key file")
+		d.fileMode(m, im, "imported")
 		if l2 := need("load2"); l2 != nil {
 			r.Hit("export-import-preserves-key")
 			if d.usable(m, l2, pub0, "load after export+import") && legacyPriv == nil {
@@ -616,6 +700,22 @@ func (d *driver) byteMutations(rng *rand.Rand, b *base) (out []bmut) {
 			}
 			pickT(s.lo)
 		case strings.HasPrefix(s.name, "value:"):
+			// the last characters that carry data (before the "=" padding) hold the last byte of the field: all 8 bit
+			// flips there (two characters for pub_key, one for the other fields), so that a comparison or a check
+			// that ignores the end of a field is met in quick too
+			last := s.hi - 1
+			for last > s.lo && f[last] == '=' {
+				last--
+			}
+			npos := 1
+			if s.name == "value:pub_key" {
+				npos = 2
+			}
+			for pos := last; pos > last-npos && pos >= s.lo; pos-- {
+				for bit := 0; bit < 8; bit++ {
+					out = append(out, bmut{"mut-flip", fmt.Sprintf("pos=%d(%s) flip-bit=%d", pos, reg(pos), bit), mutByte(f, pos, f[pos]^(1<<bit))})
+				}
+			}
 			pick(s.lo)
 			pick(s.hi - 1)
 			pick(s.hi - 2)
@@ -745,7 +845,9 @@ func (d *driver) genMutations(rng *rand.Rand, b *base, foreign *base, foreignPub
 	p := d.passes[b.Pass]
 	muts := d.byteMutations(rng, b)
 	nbyte := len(muts)
-	muts = append(muts, d.jsonMutations(rng, b, foreign, foreignPub)...)
+	if !b.noLayout {
+		muts = append(muts, d.jsonMutations(rng, b, foreign, foreignPub)...)
+	}
 	for i, mu := range muts {
 		ops := []string{"load"}
 		jsonExport := !d.r.Quick() || i%4 == 0
@@ -768,9 +870,9 @@ func (d *driver) genMutations(rng *rand.Rand, b *base, foreign *base, foreignPub
 // Run is the check entry point.
 func Run(r *vk.Run) {
 	world.Silence()
-	r.Rule = "cases = (genuine key file, operation load|export, passphrase, mutation). Genuine files: created by CreateFileSystemSigner, written by ImportPrivateKey after ExportPrivateKey, and salt-less legacy files sealed by the harness from the documented legacy derivation; passphrase classes empty, 1, 32, 33, 10000 bytes, non-UTF-8 (thorough: + 2,16,31,64,1000 bytes and 3 random binary). " +
+	r.Rule = "cases = (genuine key file, operation load|export, passphrase, mutation). Genuine files: created by CreateFileSystemSigner, written by ImportPrivateKey after ExportPrivateKey, and salt-less legacy files sealed by the harness from the documented legacy derivation (plus one sealed under 32 zero bytes); passphrase classes empty, 1, 32, 33, 10000 bytes, non-UTF-8 (thorough: + 2,16,31,64,1000 bytes and 3 random binary). " +
 		"ENUMERATED COMPLETELY in thorough for every genuine file: every byte position x {0x00, 0xFF, bit flips} and every truncation length 0..len-1 (all 8 bit flips on the created and legacy files of the six statement classes, one seeded bit on imported files and on the extra classes), plus the fixed list of JSON-level mutations (foreign/short/long/empty pub_key, each field deleted/empty/null/wrong type/invalid base64, salt and nonce changed or resized, sealed key cut/extended/foreign, duplicates, reordered, whole-document shapes) and the fixed list of wrong passphrases (empty, appended, dropped, bit flipped, doubled, zeros, prefixes, case swapped, random). " +
-		"In quick the byte positions and truncation lengths are a seeded STRATIFIED SAMPLE (3 positions per field name, 8 per field value incl. first/last, 6 structural; truncation at each stratum boundary + random) on all created and legacy files and three of the six imported files; JSON-level and passphrase lists are complete (export: every 4th JSON-level and every 6th byte-level mutation). " +
+		"In quick the byte positions and truncation lengths are a seeded STRATIFIED SAMPLE (3 positions per field name, 8 per field value incl. first/last, all 8 bit flips on the last data character of every field value and on the last two of pub_key, 6 structural; truncation at each stratum boundary + random) on all created and legacy files and three of the six imported files; JSON-level and passphrase lists are complete (export: every 4th JSON-level and every 6th byte-level mutation). " +
 		"A case is non-trivial when the file is non-empty and not a verbatim genuine file, or the passphrase differs from the sealing one; distinct by (file kind, passphrase class, operation, mutation kind+position | wrong-passphrase kind). Cases inside the trigger regions of the listed findings are classified before the run from the case alone (independent parse of the mutated file)."
 	r.Assume("oracle uses crypto/ed25519, crypto/sha256, crypto/aes+cipher (legacy sealing only) and encoding/json of the standard library; it never calls /repo code")
 	r.Assume("key material of files created by CreateFileSystemSigner / ImportPrivateKey comes from crypto/rand in the code under test: the case list (positions, kinds, passphrases, legacy files) is a function of the seed, those file bytes are not; witnesses carry the concrete bytes")
@@ -819,6 +921,18 @@ func Run(r *vk.Run) {
 		legacyPriv[ml.c.ID] = priv
 		chains = append(chains, ml)
 	}
+	// A legacy file sealed under 32 zero bytes (derived key = 32 zero bytes, the value a wiped key buffer has): any
+	// implementation slip that uses a zeroed key opens exactly this file under every passphrase.
+	{
+		zp := make([]byte, 32)
+		priv := newKey(lrng)
+		ml := &meta{Group: "chain", Desc: "32-zero-bytes", Expect: "same", b: &base{Class: "32-zero-bytes", Core: false}}
+		d.newCase(ml, "chain", sealLegacy(lrng, priv, zp), true, d.addPass(zp), d.msg(crng))
+		ml.c.Pas2 = d.addPass(cls[1].p)
+		ml.qClass = cls[1].name + "(from-zero-key-legacy)"
+		legacyPriv[ml.c.ID] = priv
+		chains = append(chains, ml)
+	}
 	run := func(ms []*meta) map[int]caseObs {
 		pb, _ := json.Marshal(d.passes)
 		_ = os.WriteFile(filepath.Join(dir, "passes.json"), pb, 0o644)
@@ -832,6 +946,7 @@ func Run(r *vk.Run) {
 	}
 	res := run(chains)
 	var bases []*base
+	noLayout := 0
 	for _, m := range chains {
 		o, ok := res[m.c.ID]
 		if !ok {
@@ -843,16 +958,22 @@ func Run(r *vk.Run) {
 			if strings.Contains(b.Name, "(same-q)") {
 				continue
 			}
-			if k, ok := parseRef(b.File); ok {
+			if k, ok := parseRef(b.File); ok && len(k.Enc) > 0 && len(k.Nonce) > 0 && bytes.Equal(k.Pub, b.Pub) {
 				b.ref = k
 				b.spans, _ = layoutOf(b.File)
-				bases = append(bases, b)
-				r.Count("genuine_files:"+b.Kind, 1)
 			} else {
-				r.Violation("correct-passphrase-loads-same-key", "key file written by the code under test is not in the documented JSON layout", map[string]any{"file": string(b.File), "base": b.Name})
+				// another layout (field names, value encoding, not JSON at all): the JSON-level mutation list and the
+				// trigger-region classification need the layout; the byte-level mutations and truncations do not
+				b.noLayout = true
+				noLayout++
 			}
+			bases = append(bases, b)
+			r.Count("genuine_files:"+b.Kind, 1)
 		}
 		r.Eval("chain|"+m.Desc+"|"+fmt.Sprint(m.c.Has), false, nil)
+	}
+	if noLayout > 0 {
+		r.Inconclusive(fmt.Sprintf("%d of %d genuine key files are not in the JSON layout this check knows (priv_key_encrypted / nonce / pub_key / salt as base64 strings): the JSON-level mutation list was not applied to them, only byte-level corruptions and truncations", noLayout, len(bases)))
 	}
 	r.Set("genuine_file_length", func() map[string]int {
 		o := map[string]int{}
@@ -869,7 +990,7 @@ func Run(r *vk.Run) {
 		// another genuine file of the same kind (for foreign sealed keys) and a foreign public key
 		var foreign *base
 		for j := 1; j < len(bases); j++ {
-			if o := bases[(i+j)%len(bases)]; o.Kind == b.Kind && !bytes.Equal(o.Pub, b.Pub) {
+			if o := bases[(i+j)%len(bases)]; o.Kind == b.Kind && !o.noLayout && !bytes.Equal(o.Pub, b.Pub) {
 				foreign = o
 				break
 			}
@@ -932,7 +1053,7 @@ func Run(r *vk.Run) {
 	r.Require("export-import-preserves-key", 2*n)
 	r.Require("export-is-the-key", n)
 	r.Require("file-hides-key", n)
-	r.Require("legacy-file-loads", n-1)
+	r.Require("file-mode-private", n)
 	r.Require("wrong-passphrase-fails", 10*n)
 	r.Require("mutation-fails-or-same-key", int64(r.N(1500, 20000)))
 	r.Require("no-panic", int64(r.N(2000, 25000)))
